@@ -114,16 +114,27 @@ def generate(rng, tier):
                     continue
                 rest = rng.choice([b"", b' ,"pad":"' + b"y" * 100 + b'"', b',"t":[1,{"z":2}]' + b" " * 70])
                 which = rng.randrange(3)
-                if which == 0:
+                if off + tail <= 1:
+                    which = 3      # the bare escape (and with one neighbour) in ALL three positions
+                if which in (0, 3):
                     txt = b'["' + body + b'",7]'
                     cases.append({"lines": ["parse pool " + _hex(txt)], "cls": "as-value", "nontrivial": True, "via": "c03"})
-                elif which == 1:
+                if which in (1, 3):
                     txt = b'{"' + body + b'":[1,2]' + rest + b"}"
                     cases.append({"lines": ["parse pool " + _hex(txt)], "cls": "as-key", "nontrivial": True, "via": "c03"})
-                else:
+                if which in (2, 3):
                     doc = b'{"first":0,"' + body + b'":[1,{"z":2}]' + rest + b"}"
                     cases.append({"lines": ["ondemand " + rng.choice(["heap", "page"]) + " " + _hex(doc) + " k" + (dec.hex() or "-")], "cls": "as-ondemand-key",
                                   "nontrivial": True, "via": "c10"})
+    # an escaped key that is NOT the wanted one, in front of it: a well-formed one (any spelling, any length relative to the wanted
+    # key) is passed over, a malformed one is an error at that key -- the decode of an unwanted key may not be skipped.
+    for tok, good in [(t, True) for t in SIMPLE + GOODU] + [(t, False) for t in BAD]:
+        for pre, post in ((0, 0), (1, 0), (0, 1), (rng.randrange(0, 40), rng.randrange(0, 40))):
+            for want in (b"k", b"wanted-key-" + b"w" * rng.choice([0, 5, 21, 53])):
+                body = b"p" * pre + tok + b"q" * post
+                doc = b'{"' + body + b'":[1,{"z":2}],"' + want + b'":{"z":3}}'
+                cases.append({"lines": ["ondemand " + rng.choice(["heap", "page"]) + " " + _hex(doc) + " k" + want.hex()],
+                              "cls": "escaped-key-before-wanted" if good else "malformed-key-before-wanted", "nontrivial": True, "via": "c10"})
     return cases
 
 
